@@ -568,6 +568,13 @@ def r11_pairing(idx, r):
     pairing_rule(idx, r, ["armi.reactor.converters.uniformMesh", "armi.reactor.converters.meshConverters", "armi.reactor.assemblies"], 60)
 
 
+def r_borrowed_r11_13(idx, r):
+    """clause of C02: the block-level branch of a dehomogenised query walks the children (R02.7)"""
+    from ..report import Only
+    from .c02 import r7_dehomogenisation_range
+    r7_dehomogenisation_range(idx, Only(r, ["branch:children"]))
+
+
 def run(idx, chk):
     chk.explanation = (
         "C11: the two overlap-mapping functions are typed with role generators for overlap / destination / source heights: densities scale by "
@@ -601,3 +608,5 @@ def run(idx, chk):
                  necessary="source and destination are not exchanged")
     chk.run_rule("R11.12", "setNumberDensities keeps every nuclide it is given (R02.3); setHeight always invalidates the volume cache (R02.6)", lambda r: r12_densities_and_volumes_under_a_remesh(idx, r), floor=2,
                  necessary="atoms of every nuclide and the volume are conserved when the mesh changes")
+    chk.run_rule("R11.13", "clause of C02: the block-level branch of a dehomogenised query walks the children (R02.7)", lambda r: r_borrowed_r11_13(idx, r), floor=1,
+                 necessary="block quantities used by the mappers are sums over the components")
